@@ -222,6 +222,29 @@ func cDelExpect(exp int) opSpec {
 		}}
 }
 
+// cDelBelow: Delete guarded by a check callback (the other precondition option of Delete): it may only
+// remove a version the check accepted.
+func cDelBelow(limit int) opSpec {
+	return opSpec{fmt.Sprintf("DelIfBelow(%d)", limit),
+		func(e env) res {
+			m, err := e.col.Delete("a", below(limit))
+			if err != nil {
+				return res{code(err), -1}
+			}
+			return res{codes.OK, val(m)}
+		},
+		func(s *state) res {
+			if !s.has {
+				return res{codes.NotFound, -1}
+			}
+			if s.v >= limit {
+				return res{codes.FailedPrecondition, -1}
+			}
+			s.has = false
+			return res{codes.OK, s.v}
+		}}
+}
+
 type call struct {
 	op        *opSpec
 	thread    int
@@ -412,7 +435,7 @@ func main() {
 			add(false, state{}, 2, -1, one(absentOps[i]), one(absentOps[j]))
 		}
 	}
-	presentOps := []opSpec{cAdd(9), cUpsertInc(), cInc(), cCAS(0, 7), cSet(5), cDel(), cDelAllow(), cDelExpect(0)}
+	presentOps := []opSpec{cAdd(9), cUpsertInc(), cInc(), cCAS(0, 7), cSet(5), cDel(), cDelAllow(), cDelExpect(0), cDelBelow(1)}
 	for i := range presentOps {
 		for j := i; j < len(presentOps); j++ {
 			add(false, state{true, 0}, 2, -1, one(presentOps[i]), one(presentOps[j]))
@@ -424,6 +447,8 @@ func main() {
 	add(false, state{true, 0}, 2, 3, one(cInc()), one(cDel()), one(cAdd(3)))
 	add(false, state{true, 0}, 2, 3, one(cDelExpect(0)), one(cSet(5)), one(cSet(0)))
 	add(false, state{true, 0}, 2, 3, []opSpec{cDel(), cAdd(0)}, one(cDelExpect(0)))
+	add(false, state{true, 0}, 2, 3, one(cDelBelow(1)), one(cInc()), one(cInc()))
+	add(false, state{true, 0}, 2, 3, one(cDelBelow(2)), []opSpec{cInc(), cInc()})
 	add(false, state{true, 0}, 2, 3, []opSpec{cInc(), cInc()}, []opSpec{cInc(), cInc()})
 	add(false, state{true, 0}, 2, 3, []opSpec{cDel(), cAdd(0)}, []opSpec{cCAS(0, 7)})
 	h.Run()
